@@ -148,6 +148,20 @@ def main():
                 jobs.append((fmt, p, s, None))
             for cp in V.corpus_files(limit=120 if tier == "quick" else None, rng=rng):
                 jobs.append(("corpus", cp, None, None))
+            # long Protracker modules on which the loader compares CIA and VBlank timing (two scans; the loser's per-order data is thrown
+            # away or restored): played straight through once, so that the order start times seek_time relies on can be held against the
+            # moment straight playback really enters each order
+            for i in range(4 if tier == "quick" else 40):
+                s = modgen.random_flow_song(rng, "mod", vocab=('delay',), max_orders=12, max_pats=4, density=0.02)
+                while len(s['orders']) < 12: s['orders'].append(rng.randrange(len(s['patterns'])))
+                hi = rng.choice((0x20, 0x24, 0x28)) if i % 2 == 0 else rng.choice((0x48, 0x50, 0x60))      # VBlank wins / CIA wins
+                p0 = s['patterns'][s['orders'][0]]
+                p0[0][0] = dict(p0[0][0] or {}, fx=('speed', 31)); p0[1][0] = dict(p0[1][0] or {}, fx=('tempo', hi))
+                pm = s['patterns'][s['orders'][7]]
+                if pm is not p0: pm[5][1] = dict(pm[5][1] or {}, fx=('tempo', hi + 8))
+                s['restart'] = 0x7f; s['speed'] = 6; s['bpm'] = 125
+                p = os.path.join(tmpd, "v%05d.mod" % i); open(p, "wb").write(modgen.WRITERS["mod"](s))
+                jobs.append(("mod", p, s, "P40000"))
         # pass 1: tables only (empty script) so that scripts can target every order / time of each module
         need = [j for j in jobs if j[3] is None]
         hdrs = {}
@@ -185,6 +199,18 @@ def main():
                 ck.violation(dict(rep, broken="the loaded module / scan tables violate smod_okb (Model/Seek.v), the hypothesis of the C17 theorems", what="smod_okb false"), key="c17:okb")
                 continue
             if okb[1] != "1": endb_fail += 1
+            # --- straight playback from the start: the first frame of every order gives the time playback really enters it
+            if script and all(t.startswith("P") for t in script.split()):
+                seen = {}
+                for l in cl:
+                    w = l.split()
+                    if w[0] == "F" and w[1] == "0" and len(w) >= 25 and int(w[19]) not in seen: seen[int(w[19])] = int(w[24])
+                for o, t in sorted(seen.items()):
+                    ck.count()
+                    if o < len(hdr["time"]) and hdr["time"][o] >= 0 and abs(hdr["time"][o] - t) > 700:
+                        ck.violation(dict(rep, what="order %d: the start time seek_time works with is %d ms, straight playback entered the order at about %d ms" % (o, hdr["time"][o], t),
+                                          broken="C17 on the implementation: order start times used by xmp_seek_time vs straight playback"), key="c17:order-times")
+                        break
             # --- model vs implementation, call by call
             ev = []; bad = None
             for idx, l in enumerate(cl):
